@@ -33,7 +33,7 @@ CLAIMED["C07"] = (
     "of rejected edits, composition of the transform sequence after insert_frame, the box kept while the step-0 transform object is "
     "untouched, and distinct frame names as an invariant over histories of any length. Tied to gwcs/wcs.py by comparing the full observable "
     "state (frames, attributes, box, every frame pair on probes) after every op, valid or rejected, of generated histories; an independent "
-    "Python reference list is the oracle (atomicity of rejected edits is checked there).",
+    "Python reference list is the oracle (atomicity of rejected edits is checked there). Added: a new frame named like a read-only property of the WCS class is rejected with the state unchanged (reserved_name_rejected); the list of such names is regenerated from the class on every run (Generated/ReadOnly.lean).",
     "Trusted: Lean kernel; standard axioms; correspondence harness; astropy composition and ModelBoundingBox.validate (modelled).",
     "Lean 4 refinement proofs over hand-written model + history correspondence + reference-list oracle", "DESIGN.md §6 C07")
 
@@ -99,7 +99,7 @@ CLAIMED["C18"] = (
     "forward image of the corners of the chosen box (passed box wins, own box otherwise, none -> refused), clockwise from lower-left for "
     "an all-spatial output and the full product (2^n corners, each coordinate a limit of its axis, first axis slowest) otherwise, corners "
     "moved to pixel centres first when centring. Tied to gwcs by exact correspondence on dyadic inputs and an independent oracle; two "
-    "defects found and fixed (D22, D23).",
+    "defects found and fixed (D22, D23). Added: axis types compared without regard to case and with 'TIME' = 'temporal' (axis_type_spelling_irrelevant, temporal_alias); the correspondence sends the strings as the frames report them and as the caller spelled them.",
     "Trusted: Lean kernel; standard axioms; harness; np.mgrid length rule (modelled). Doubles-vs-rationals divergence of arange lengths for "
     "non-dyadic steps is named, not compared.",
     "Lean 4 proof over rational model + exact differential correspondence", "DESIGN.md §6 C18")
@@ -150,7 +150,7 @@ CLAIMED["C05"] = (
     "axis-aligned affine maps of either parity (convergence in one step). PARTIAL: that dn < tol^2 bounds the forward residual and that the "
     "iteration converges for the distorted family and the NIRCam reference WCS are numerical facts - exercised on every run by forward-"
     "mapping the returned pixels (in pixels) and by a full-grid NIRCam run, not proved. Tied to gwcs by reading the solver's internal state "
-    "(k, ind, dn, dnprev, invalid, inddiv) with a line tracer and requiring the Lean classification, invariant and raise decision to match.",
+    "(k, ind, dn, dnprev, invalid, inddiv) with a line tracer and requiring the Lean classification, invariant and raise decision to match. Added: the solver's angle wrap mod(d + P/2, P) - P/2 (Wrap.lean: range, periodicity, identity on the half-open period, recovery of a short difference from any multiple of the period, equality of the two written forms), tied to the source by an AST pattern check of every np.mod in _vectorized_fixed_point (c05.prepare).",
     "Trusted: Lean kernel; standard axioms; tracer harness. Runtime behaviour not modelled: IEEE rounding, contraction of the iteration, "
     "scipy hybr. Known finding D25 (isolated non-convergence at |Dec| >= 60).",
     "Lean 4 invariant/coverage proof over a state-machine model + traced-state correspondence + forward-mapping oracle", "DESIGN.md §6 C05")
@@ -163,7 +163,7 @@ CLAIMED["C02"] = (
     "of the backward transform evaluates as the forward transform. PARTIAL: the sky projections / rotations (wcslib) are modelled - their "
     "inverse law is a hypothesis, measured on every run for every zenithal projection x pointing x scale to 1e-6 px + conditioning. Tied to "
     "gwcs by exact correspondence on generated pipelines (forward, both round trips, backward vs hand-composed reversed inverses, "
-    "backward.inverse, iterative kwargs ignored, in-place parameter change, per-frame round trips).",
+    "backward.inverse, iterative kwargs ignored, in-place parameter change, per-frame round trips). Added: image-slicer round trips (slicer_round_trip: a RegionsSelector followed by its inverse selector returns every labelled pixel of a batch of any size when each region's backward transform undoes its forward one and the mapper's inverse labels a region's image with that region) over the selector model tied by C15's correspondence; exercised on slicer WCSs with a user-supplied mapper inverse.",
     "Trusted: Lean kernel; standard axioms; harness; astropy model inverses for leaves (modelled). Runtime behaviour not modelled: IEEE rounding, wcslib.",
     "Lean 4 structural-induction proofs on the transform algebra + exact differential correspondence", "DESIGN.md §6 C02")
 
@@ -192,7 +192,7 @@ CLAIMED["C16"] = (
     "gwcs by correspondence on generated twin pairs (9 operations per pair incl. mixed wrong-unit pixels) and by metamorphic comparison of "
     "the twins incl. a TAN imaging WCS, world inputs in deg/arcsec/arcmin/rad, m/um/nm/AA, Hz/MHz/GHz, s/min/h, SkyCoord in "
     "ICRS/FK5/FK5(J1975)/FK4/Galactic, SpectralCoord, Time; generic 1-D frames; a unit-carrying forward transform with a user-supplied "
-    "unit-free inverse (mixed_world_values).",
+    "unit-free inverse (mixed_world_values). Added: pixel quantities in any unit convertible to the input frame's are converted, never taken at face value (pixel_quantity_converted); twins are also built through edit histories; WCS.transform by frame object, array indices, SpectralCoord of another physical type, other time scales.",
     "Trusted: Lean kernel; standard axioms; harness (twin construction); astropy units/coordinates (modelled). Runtime behaviour not modelled: float rounding of unit conversion (1e-11 relative).",
     "Lean 4 proofs over lists/rationals for arbitrary numeric transforms + differential and twin (metamorphic) correspondence", "DESIGN.md §6 C16")
 
@@ -225,7 +225,7 @@ CLAIMED["C11"] = (
     "and by reading every returned header+tables with astropy.wcs.WCS and comparing with the gwcs transform at every tabulated node "
     "(independent linspace grid) and at random in-box points against the surrounding node values, for generated WCS of 1-4 pixel axes "
     "(sky, spectral, time, generic, coupled pair, slit 2->3, fans 1->2 and 1->3, transitive chain) in any world-axis permutation, "
-    "offset/fractional boxes, scalar/per-axis sampling, to_fits_tab and to_fits, plus the three rejected calls.",
+    "offset/fractional boxes, scalar/per-axis sampling, to_fits_tab and to_fits, plus the three rejected calls. Added: the PC/CD cards of the celestial rows under the original axis numbers (Remap.lean: block_placed, celestial_rows_clean, other_rows_untouched) compared card by card with the header and row by row with the matrix wcslib assembles; which separable group is the celestial pair (celestial_group_same_frame, split_celestial_not_paired) compared with the CTYPEs.",
     "Trusted: Lean kernel; standard axioms; harness; astropy.wcs/wcslib as the standard reader. Runtime behaviour not modelled: float rounding in linspace/reader (1e-9 relative).",
     "Lean 4 proofs (loop invariant induction; rational arithmetic of the -TAB index) + header correspondence + end-to-end comparison through the standard FITS reader", "DESIGN.md §6 C11")
 
@@ -259,7 +259,7 @@ CLAIMED["C20"] = (
     "fit of wcs_from_points are exercised, not modelled. Tied to gwcs by exact correspondence of fitswcs_linear (dyadic headers) and of "
     "the lon_pole chosen by wcs_from_fiducial with the default rule and with wcslib over 24 projections x pointings; anchoring measured "
     "on the real WCS (composite sky+spectral, prepended transforms, bounding boxes); make_fitswcs_transform vs wcslib on fractional "
-    "0-based pixels; wcs_from_points recovery on points generated by a WCS of the fitted form with sky stored in deg/hourangle/rad.",
+    "0-based pixels; wcs_from_points recovery on points generated by a WCS of the fitted form with sky stored in deg/hourangle/rad. Added: the n-axis FITS formula and skyBlock_sound (the 2x2 block reproduces it on decoupled celestial rows), the matrix read from the header cards (cd_form_from_any_card, pc_form_defaults) compared with read_wcs_from_header, 3-axis headers, omitted default cards, LONPOLE cards.",
     "Trusted: Lean kernel; standard axioms (Mathlib real analysis); harness; astropy.wcs/wcslib as the FITS reference; astropy's rotation convention as transcribed.",
     "Lean 4 proofs (ring identities over Q; trigonometric identity over R) + exact correspondence of the linear part and pole longitude + measured comparison with wcslib", "DESIGN.md §6 C20")
 
